@@ -7,7 +7,7 @@ import pulsarbat as pb
 from pulsarbat.utils import real_to_complex
 from harness.common import float_lit, zlit, listlit
 
-VFILES = ['Lib/Dft.v', 'Lib/DftC.v', 'Lib/F64.v', 'Model/Hilbert.v', 'Proofs/HilbertProofs.v', 'Proofs/HilbertC.v', 'Proofs/HilbertTone.v', 'Props/C19.v']
+VFILES = ['Lib/Dft.v', 'Lib/DftC.v', 'Lib/F64.v', 'Model/Hilbert.v', 'Proofs/HilbertProofs.v', 'Lib/PySlice.v', 'Gen/GenHilbert.v', 'Proofs/HilbertGen.v', 'Proofs/HilbertC.v', 'Proofs/HilbertTone.v', 'Props/C19.v']
 REAL_AX = {'ClassicalDedekindReals.sig_forall_dec', 'ClassicalDedekindReals.sig_not_dec',
            'FunctionalExtensionality.functional_extensionality_dep', 'Classical_Prop.classic'}
 
